@@ -29,6 +29,10 @@ CONSTANTS MAX,        \* frame payload limit (model scale, >= 3)
                       \*       frames may land between the frames of one Write (not only between Write calls)
           AtomicFrames, \* TRUE (the code as it is): WriteFrame puts header+payload on the connection in one
                       \*       step (single writev under the fd write lock); FALSE enables DevTornWriteFrame
+          LimitOnlyOnReaderPath, \* FALSE (the code as it is): there is ONE decoder, ReadFrameFromReader, and every
+                      \*       entry point that reads frames ends in it; TRUE = named deviation: ReadFrame on a
+                      \*       *net.TCPConn has an implementation of its own and the length check lives only in
+                      \*       ReadFrameFromReader
           Gen,        \* TRUE: generation mode (scripts only, history kept); FALSE: exhaustive check
           Emit        \* TRUE: print behaviours
 
@@ -258,8 +262,32 @@ DecodeOutcome(c) ==
   ELSE IF c.avail \in {"all", "extra"} THEN [res |-> "frame", alloc |-> DeclLen(c.decl)]
   ELSE [res |-> "error", alloc |-> DeclLen(c.decl)]
 \* the frame type plays no role in the decoder (it is the stream that interprets it)
-DecoderSafeDef == \A c \in DecClasses : DecodeOutcome(c).alloc <= MAX /\ DecodeOutcome(c).res \in {"frame", "error"}
-ASSUME DecoderSafe == DecoderSafeDef
+\* ---- entry points: everything exported that reads a frame off a byte source --------------------
+\*   rfr      crossnode.ReadFrameFromReader(io.Reader)            sessrfr  session.ReadFrameFromReader (facade)
+\*   tcp      crossnode.ReadFrame(*net.TCPConn)                   sess     session.ReadFrame (facade; what the HTTP /
+\*                                                                         DNS / command response readers call)
+\*   stream   FrameStream.Read (frame loop on the connection)     listener CrossNodeListener.handleConnection (first frame)
+DecEntries == {"rfr", "sessrfr", "tcp", "sess", "stream", "listener"}
+\* the call graph of the code as it is: every entry point ends in ReadFrameFromReader
+Calls(e) == CASE e = "sessrfr" -> "rfr" [] e = "tcp" -> "rfr" [] e = "sess" -> "tcp"
+              [] e = "stream" -> "tcp" [] e = "listener" -> "sess" [] OTHER -> "rfr"
+\* the decoder implementation an entry point ends in
+Impl(e) == IF e \in {"rfr", "sessrfr"} THEN "reader"
+           ELSE IF LimitOnlyOnReaderPath THEN "tcp" ELSE "reader"
+LimitChecked(e) == Impl(e) = "reader"
+\* without the check the announced length is allocated first and the payload read afterwards
+DecodeOutcomeAt(c, e) ==
+  IF LimitChecked(e) \/ c.hdr # "full" \/ DeclLen(c.decl) <= MAX THEN DecodeOutcome(c)
+  ELSE IF c.avail \in {"all", "extra"} THEN [res |-> "frame", alloc |-> DeclLen(c.decl)]
+  ELSE [res |-> "error", alloc |-> DeclLen(c.decl)]
+DecoderSafeDef == \A c \in DecClasses : \A e \in DecEntries :
+                     DecodeOutcomeAt(c, e).alloc <= MAX /\ DecodeOutcomeAt(c, e).res \in {"frame", "error"}
+\* every entry point judges a byte string like every other (same outcome, same bound)
+EntriesAgreeDef == \A c \in DecClasses : \A e \in DecEntries : DecodeOutcomeAt(c, e) = DecodeOutcome(c)
+ASSUME DecoderSafe == (~LimitOnlyOnReaderPath => DecoderSafeDef /\ EntriesAgreeDef)
+\* the same as state predicates, so that a cfg can name them (CrossFrame_show_limitpath.cfg)
+DecoderBounded == DecoderSafeDef
+EntriesAgree == EntriesAgreeDef
 \* encode/decode round trip: WriteFrameToWriter refuses len > MAX, everything else decodes to itself
 RtLens == {"z", "one", "Mm1", "M", "Mp1"}
 RoundTripDef == \A c \in RtLens : Size(c) <= MAX =>
@@ -314,7 +342,7 @@ Forwarded(rs) == LET RECURSIVE f(_, _)
 ASSUME CopyForwardsAll == \A a \in ReadResults, b \in ReadResults :
           Forwarded(<<a, b>>) = a.n + (IF a.eof THEN 0 ELSE b.n)
 AuxBehaviours ==
-  /\ \A c \in DecClasses : Out([kind |-> "dec", c |-> c, exp |-> DecodeOutcome(c).res])
+  /\ \A c \in DecClasses : \A e \in DecEntries : Out([kind |-> "dec", c |-> c, e |-> e, exp |-> DecodeOutcomeAt(c, e).res])
   /\ \A c \in RtLens : \A t \in DecTypes : Out([kind |-> "rt", len |-> c, ty |-> t])
   /\ \A p \in FwdPatterns : \A a \in SizeClasses : \A b \in SizeClasses : \A cn \in FwdCounters : \A es \in FwdEofStyles :
         (es = "with" => p = "half") =>     \* end-of-stream from the local reader is the half-close
